@@ -21,6 +21,7 @@
 //   - both the left side and the first argument of `*s = append(*s, ...)` where s is the
 //     receiver of the enclosing method (a *Statement),
 //   - a composite literal `Statement{...}` (a fresh value).
+//
 // Anything else - `x := *s`, `(*s)[i] = c`, `(*s)[i:j]`, `&(*s)[i]`, `append(*s, c)` not assigned
 // back, `copy(*s, ..)`, `[]Code(*s)`, passing `*s` to a function, returning it - could create
 // a second header over the same array or write an element in place, and is reported.
